@@ -693,7 +693,7 @@ def _h_allreduce_ranks(ex, st, args, kwargs, node):
     N, R, r = c.fixed['N'], c.fixed['R'], c.fixed['rank']
     local = st.get(args[0])
     items = list(local.items)
-    me = st.get(st.env['self'])
+    me = st.get(ex.root_env['self'])
     w = st.get(me.attrs['g_weights'])
     mine = list(range(r, N, R))
     if len(items) != len(mine):
